@@ -163,9 +163,10 @@ Proof.
 Qed.
 
 (* ---------- RemoveBinding in closed form ---------- *)
-Definition hit_e (ca : faddr) (sf : lfeat) (x : entry) : bool := eqb_faddr (e_cli x) ca && same_srv x sf.
+Definition hit_e (p : N) (ca : faddr) (sf : lfeat) (x : entry) : bool :=
+  N.eqb (e_ski x) p && eqb_faddr (e_cli x) ca && same_srv x sf.
 
-Lemma hit_strip ca sf x : hit ca (srv_of sf) (strip x) = hit_e ca sf x.
+Lemma hit_strip p ca sf x : hit p ca (srv_of sf) (strip x) = hit_e p ca sf x.
 Proof. reflexivity. Qed.
 
 Definition bind_del (s : st) (pe : peer) (c : reg_call) : option (lfeat * rent * rfeat) :=
@@ -173,7 +174,7 @@ Definition bind_del (s : st) (pe : peer) (c : reg_call) : option (lfeat * rent *
   | Some (en, rf), Some sf =>
       if role_type_ok (lf_role sf) (lf_type sf) RServer (lf_type sf) &&
          has_binding s sf (rf_addr en rf) &&
-         existsb (hit_e (default_dev pe (rc_cli c)) sf) (binds s)
+         existsb (hit_e (p_ski pe) (default_dev pe (rc_cli c)) sf) (binds s)
       then Some (sf, en, rf) else None
   | _, _ => None
   end.
@@ -182,7 +183,7 @@ Lemma remove_binding_eq s pe c :
   remove_binding s pe c =
   match bind_del s pe c with
   | Some (sf, en, rf) =>
-      (set_binds s (filter (fun x => negb (hit_e (default_dev pe (rc_cli c)) sf x)) (binds s)) (next_bind s),
+      (set_binds s (filter (fun x => negb (hit_e (p_ski pe) (default_dev pe (rc_cli c)) sf x)) (binds s)) (next_bind s),
        [ev_reg EvBind ChRemove (p_ski pe) en (rf_addr en rf) sf], false)
   | None => (s, [], true)
   end.
@@ -192,7 +193,7 @@ Proof.
   destruct (local_feature s (rc_srv c)) as [sf|]; [|reflexivity].
   destruct (role_type_ok (lf_role sf) (lf_type sf) RServer (lf_type sf)); simpl; [|reflexivity].
   destruct (has_binding s sf (rf_addr en rf)); simpl; [|reflexivity].
-  rewrite (filter_keeps_all (hit_e (default_dev pe (rc_cli c)) sf)).
+  rewrite (filter_keeps_all (hit_e (p_ski pe) (default_dev pe (rc_cli c)) sf)).
   destruct (existsb _ (binds s)); reflexivity.
 Qed.
 
@@ -232,14 +233,15 @@ Proof.
 Qed.
 
 (* under BSingle, the two tests of RemoveBinding collapse: the named address must be the
-   announced address of the client feature, and the pair must be bound *)
-Lemma del_tests s sf ca cli : BSingle s ->
-  has_binding s sf cli && existsb (hit_e ca sf) (binds s) = eqb_faddr ca cli && existsb (hit_e ca sf) (binds s).
+   announced address of the client feature, and the pair must be bound BY THE CALLING CONNECTION
+   (HasLocalFeatureRemoteBinding itself compares addresses only) *)
+Lemma del_tests s sf p ca cli : BSingle s ->
+  has_binding s sf cli && existsb (hit_e p ca sf) (binds s) = eqb_faddr ca cli && existsb (hit_e p ca sf) (binds s).
 Proof.
   intros Hs. unfold has_binding, bindings_on.
-  destruct (existsb (hit_e ca sf) (binds s)) eqn:Eh; [|rewrite !andb_false_r; reflexivity].
+  destruct (existsb (hit_e p ca sf) (binds s)) eqn:Eh; [|rewrite !andb_false_r; reflexivity].
   rewrite !andb_true_r. apply existsb_exists in Eh. destruct Eh as [y [Hy Hh]].
-  unfold hit_e in Hh. apply andb_true_iff in Hh. destruct Hh as [Hc Hsrv]. apply eqb_faddr_eq in Hc.
+  unfold hit_e in Hh. apply andb_true_iff in Hh. destruct Hh as [Hc Hsrv]. apply andb_true_iff in Hc. destruct Hc as [_ Hc]. apply eqb_faddr_eq in Hc.
   destruct (eqb_faddr ca cli) eqn:E.
   - apply eqb_faddr_eq in E. subst cli. apply existsb_exists. exists y. split.
     + apply filter_In. auto.
